@@ -28,7 +28,7 @@ ASSUMPTIONS = [
     "damage that maps to the same binary (white space, the tolerated blank line) or that the format does not bind to the content (bytes of a pass-through auth block, zero padding of an AES frame) may return the original content",
     "ECC-protected files get all key flips and the flips inside their auth-block region; the full per-byte sweep runs on customer-key / update-block files (pure-Python P-256 costs 30 ms per read)",
 ]
-TIMEOUT = {"quick": 3600, "thorough": 8 * 3600}
+TIMEOUT = {"quick": 900, "thorough": 8 * 3600}
 NSH = 16
 REPL = [("flip%d" % b, b) for b in range(8)] + [("set00", None), ("setFF", None), ("plus1", None)]
 BIN_SUFFIXES = [b"\x00", b"\x00\x00", b"\xff", b"\x41", bytes(16), b"\xff" * 40]
